@@ -11,6 +11,7 @@ import (
 	"os"
 	"path/filepath"
 	"regexp"
+	"runtime"
 	"runtime/debug"
 	"sort"
 	"strconv"
@@ -111,6 +112,11 @@ func bubble(t *testing.T, res *Result, fn func()) {
 	defer func() {
 		if r := recover(); r != nil {
 			res.Infra = fmt.Sprintf("bubble: %v", r)
+			if os.Getenv("VERIF_DEBUG") != "" {
+				buf := make([]byte, 1<<20)
+				n := runtime.Stack(buf, true)
+				fmt.Fprintf(os.Stderr, "%s\n", buf[:n])
+			}
 		}
 	}()
 	synctest.Test(t, func(t *testing.T) {
@@ -320,6 +326,14 @@ func TestSim(t *testing.T) {
 		replay(t)
 	case "trace":
 		traceMode(t)
+	case "one":
+		seed := uint64(envInt("VERIF_SEED_EXACT", 0))
+		sc := scenarios[os.Getenv("VERIF_SCEN")]
+		plan := sc.Gen(planSeedRng(seed), os.Getenv("VERIF_TIER"))
+		res := runScenario(t, sc, plan, Ctl{Seed: seed})
+		pj, _ := json.MarshalIndent(plan, "", " ")
+		rj, _ := json.MarshalIndent(res, "", " ")
+		fmt.Printf("PLAN %s\nRESULT %s\n", pj, rj)
 	default:
 		t.Fatalf("unknown VERIF_MODE %q", mode)
 	}
